@@ -57,6 +57,7 @@ class Driver:
         self.battery_labels = {}
         self.expanded = []
         self.split_inside_frame = 0
+        self.eof_reads = 0
         self.last_boundary = 0
         self.chunk_inside_utf8 = 0
         self.pipelined_pairs = 0
@@ -68,6 +69,15 @@ class Driver:
         self.on_idle()
         while not self.pending:
             if self.eof or self.pos >= len(self.ops):
+                self.eof_reads += 1
+                if self.eof_reads > 2000:
+                    import traceback as _tb
+
+                    site = sim._site_from_stack(_tb.extract_stack())
+                    violation("LIVENESS", "reads-after-eof", site,
+                              "the server asked for input more than 2000 times after end of stream")
+                    ev("liveness", "eof")
+                    S.abort_cb("LIVENESS")
                 return b""
             op = self.ops[self.pos]
             k = op["k"]
